@@ -16,7 +16,7 @@
 (*   "f6" nested groups: (?:(T)|T)q and ((T)q T)q                            *)
 (*        -> exec on a set of subjects, as literal /p/f or new RegExp(p, f)  *)
 (*   "syntax"  accepted / SyntaxError / rejected-as-unsupported, literal and *)
-(*             constructor; flags                                            *)
+(*             constructor; flags; the instance properties (15.10.7)         *)
 (*   "strm"    String.prototype.match / replace / search / split with a      *)
 (*             RegExp argument (lastIndex before = 0 or 1)                   *)
 (*   "bytes"   exec of a global expression from every lastIndex on subjects  *)
@@ -107,6 +107,7 @@ Js(c) ==
            LET h == IF S!RxClassify(c.src, c.flags) = "unsupported" THEN "REJECTED" ELSE "CLASSIFY" IN
            (IF c.form = "lit" THEN <<h \o "(function(){ return (0,eval)(", Lit(StrV(<<47>> \o c.src \o <<47>> \o c.flags)), "); })">>
             ELSE <<h \o "(function(){ return new RegExp(", Lit(StrV(c.src)), ",", Lit(StrV(c.flags)), "); })">>)
+      [] c.fam = "props" -> <<"PROPS(">> \o Ctor(c.form, c.src, c.flags) \o <<")">>
       [] c.fam = "strm" ->
            <<"var r = ">> \o Ctor(c.form, c.src, c.flags) \o <<", L = [], s = ", Lit(StrV(c.s)), "; r.lastIndex = ", Lit(c.li), "; var x = ">>
            \o (CASE c.m = "ctor" -> <<"'constructed'">>
@@ -136,6 +137,7 @@ Expect(d, c) ==
                    ELSE IF k.thr = "SyntaxError" THEN <<83, 121, 110, 116, 97, 120, 69, 114, 114, 111, 114>>
                    ELSE IF k.thr = "TypeError" THEN <<84, 121, 112, 101, 69, 114, 114, 111, 114>>
                    ELSE <<69, 114, 114, 111, 114>>))                                             \* "Error": any error class
+      [] c.fam = "props" -> Ok(S!RxProps(S!RxNew(c.src, c.flags)))
       [] c.fam = "strm" ->
            LET k == IF d THEN L!RxConstructF(c.src, c.flags, c.form) ELSE S!RxConstructF(c.src, c.flags, c.form)
                X0 == [k.X EXCEPT !.li = c.li]
@@ -200,7 +202,8 @@ Next ==
             \/ /\ b = 1
                /\ \E fl \in SeqSet(X_BadFlags) \cup SeqSet(X_GoodFlags), form \in {"lit", "ctor"} :
                      /\ ~(form = "lit" /\ \E i \in 1..Len(fl) : fl[i] = 32)
-                     /\ cs' = [fam |-> "syn", form |-> form, src |-> <<97>>, flags |-> fl]
+                     /\ \/ cs' = [fam |-> "syn", form |-> form, src |-> <<97>>, flags |-> fl]
+                        \/ (fl \in SeqSet(X_GoodFlags) /\ cs' = [fam |-> "props", form |-> form, src |-> <<97, 124, 40, 98, 41>>, flags |-> fl])
        ELSE IF fam = "strm"
        THEN \E j \in {i \in 1..Len(PatSeq(fam)) : i % K = b - 1}, fl \in {<<>>, <<103>>, <<103, 105>>} :
                LET P == S!RxParse(PatSeq(fam)[j]) IN
